@@ -245,6 +245,7 @@ func init() {
 			return out
 		}
 		out["enc"] = hx(b)
+		retain(out, "nasrt", b)
 		nasDecodeStages(out, b)
 		return out
 	}
